@@ -301,7 +301,7 @@ static void build_mutations(const TypeCtx& c, const Val& v0, const Enc& e, uint6
   }
   // structural single defects
   int cand = count_struct_candidates(c.sch, v0);
-  for (int t = 0; t < cand && t < 6; t++) { Val mv = v0; ValMutator vm(r, cand <= 6 ? t : (int)r.below((uint64_t)cand)); vm.walk(c.sch, mv); if (!vm.done) continue; Enc e2; RefEncode(c.sch, mv, e2); Mut m; m.bytes = e2.out; m.kind = MutKind::Structural; m.desc = vm.desc; m.category_comparable = true; m.defect_off = SIZE_MAX - 1; muts.push_back(std::move(m)); }
+  for (int t = 0; t < cand && t < 6; t++) for (int variant = 0; variant < 3; variant++) { Val mv = v0; ValMutator vm(r, cand <= 6 ? t : (int)r.below((uint64_t)cand), variant); vm.walk(c.sch, mv); if (variant > 0 && vm.desc.find("capacity+") == std::string::npos) continue; if (!vm.done) continue; Enc e2; RefEncode(c.sch, mv, e2); Mut m; m.bytes = e2.out; m.kind = MutKind::Structural; m.desc = vm.desc; m.category_comparable = true; m.defect_off = SIZE_MAX - 1; muts.push_back(std::move(m)); }
   table_wrap_mutations(e, muts);
   noise_mutations(e.out, r, thorough ? 24 : 10, muts);
   for (int i = 0; i < (thorough ? 16 : 6); i++) muts.push_back(random_string(r));
